@@ -88,6 +88,14 @@ SkelObjs(f) ==
      [B("pk.cyca.CBase", "CBase", "Class", "pk.cyca", "C") EXCEPT !.subclasses = {"pk.cycb.Impl"}],
      B("pk.cyca.CBase.run", "run", "Function", "pk.cyca.CBase", "R"),
      B("pk.cyca.CBase.keep", "keep", "Function", "pk.cyca.CBase", "K"),
+     \* a property with setter and deleter: functions named "side.setter" / "side.deleter" (astbuilder), documented under
+     \* the anchors #side.setter / #side.deleter; Impl overrides the setter with @CBase.side.setter
+     B("pk.cyca.CBase.side", "side", "Attribute", "pk.cyca.CBase", "S"),
+     \* (the decorator lines "@side.setter" / "@CBase.side.setter" are colorized: the dotted name resolves to the function
+     \* object of that name and is linked from the function header, like an annotation)
+     [B("pk.cyca.CBase.side.setter", "side.setter", "Function", "pk.cyca.CBase", "S") EXCEPT !.annrefs = {"pk.cyca.CBase.side.setter"}],
+     [B("pk.cyca.CBase.side.deleter", "side.deleter", "Function", "pk.cyca.CBase", "S") EXCEPT !.annrefs = {"pk.cyca.CBase.side.deleter"}],
+     [B("pk.cycb.Impl.side.setter", "side.setter", "Function", "pk.cycb.Impl", "S") EXCEPT !.annrefs = {"pk.cyca.CBase.side.setter"}],
      B("pk.cycb", "cycb", "Module", "pk", "C"),
      [B("pk.cycb.Impl", "Impl", "Class", "pk.cycb", "I") EXCEPT !.bases = <<"pk.cyca.CBase">>,
           !.mro = <<"pk.cycb.Impl", "pk.cyca.CBase">>, !.subclasses = {"pk.cycb.Special"}],
@@ -128,7 +136,7 @@ Alt(v) == CASE v = "pk" -> {"PRIVATE"}
             [] v = "pk._impl" -> {"PUBLIC", "HIDDEN"}
             [] OTHER -> {"PRIVATE", "HIDDEN"}
 Varied(f) == {"pk", "pk.mod", "pk.mod.Base", "pk.mod.Base.meth", "pk.mod.Base.attr", "pk.mod.Hid", "pk.mod.Hid.hm",
-              "pk.mod.Sub", "pk.mod.func", "pk.cyca.CBase.keep", "pk.cycb.Impl"}
+              "pk.mod.Sub", "pk.mod.func", "pk.cyca.CBase.keep", "pk.cycb.Impl", "pk.cycb.Impl.run"}
              \cup (IF f.nested THEN {"pk.mod.Sub.Inner"} ELSE {})
              \cup (IF f.dup THEN {"pk.mod.Dup"} ELSE {})
              \cup (IF f.move THEN {"pk._impl", "pk.Moved"} ELSE {})
@@ -389,7 +397,7 @@ VisibleHasPage(O, S)         == NoPage(O, S) = {}
 VisibleMemberHasAnchor(O, S) == NoAnchor(O, S) = {}
 
 \* C12
-MarkedKinds == {"table", "detail", "sidebar", "moduleIndex"}    \* + search documents (docs.privacy)
+MarkedKinds == {"table", "detail", "sidebar", "moduleIndex", "nameIndex"}    \* + search documents (docs.privacy)
 HiddenSet(O)  == {i \in DOMAIN O : HiddenIn(O, i)}
 VisibleUrls(O) == {<<O[i].file, O[i].frag>> : i \in {i \in DOMAIN O : ~HiddenIn(O, i)}}
 \* addresses that belong to hidden objects only (a superseding visible definition owns its address)
@@ -513,6 +521,9 @@ Cov == {Fact("member", Objs[i].parent, i) : i \in {i \in Ids : Objs[i].parent # 
        \cup UNION {{Fact("inheritsdoc", i, Objs[i].docsrc)} : i \in {i \in Ids : Objs[i].docsrc # i}}
        \cup UNION {UNION {{Fact("overrides", x, c) : c \in Overridden(p, Objs[x].name)} : x \in Contents(p)} : p \in {p \in Ids : IsCls(p)}}
        \cup UNION {UNION {{[rel |-> "inherited2", a |-> Eff(Mro(p)[k]), b |-> Eff(c)] : c \in Contents(Mro(p)[k])} : k \in {k \in 3..Len(Mro(p)) : Mro(p)[k] \in Ids}} : p \in {p \in Ids : IsCls(p)}}
+       \* objects sharing a short name (listed together in nameIndex.html), per name
+       \cup UNION {{[rel |-> "samename:" \o Objs[i].name, a |-> Eff(i), b |-> Eff(j)] :
+                       j \in {j \in Ids : j # i /\ Objs[j].name = Objs[i].name}} : i \in Ids}
        \cup {[rel |-> "root", a |-> Eff(r), b |-> IF Multi THEN "multi" ELSE "single"] : r \in Range(Roots)}
        \cup {[rel |-> "feature", a |-> x, b |-> IF M.depth > 1 THEN "expanded" ELSE "flat"] :
                  x \in {x \in {"dup", "move", "multi", "nested"} : (x = "dup" /\ feat.dup) \/ (x = "move" /\ feat.move)
@@ -575,7 +586,12 @@ ModelDiff ==
       urls |-> {i \in Ids \cap DOMAIN Case.objs : Case.objs[i].file # FileOf(i) \/ Case.objs[i].frag # FragOf(i)},
       roots |-> Roots # real.roots]
 FileOut == LET O == ObsView  S == ObsSite IN
-           [cid |-> cid, name |-> Case.name, verdict |-> Verdict(O, S, ObsMulti),
+           \* a run limited to --html-subject objects rewrites some pages of an existing output directory: its links to
+           \* pages outside the subjects are not judged (C11), the traces of hidden objects are (C12)
+           [cid |-> cid, name |-> Case.name,
+            verdict |-> IF Case.partial
+                        THEN [Verdict(O, S, ObsMulti) EXCEPT !.LinksResolve = {}, !.VisibleHasPage = {}, !.VisibleMemberHasAnchor = {}]
+                        ELSE Verdict(O, S, ObsMulti),
             diff |-> IF Case.predict THEN Diff(S) ELSE [skipped |-> TRUE],
             modeldiff |-> IF Case.kind = "enum" THEN ModelDiff ELSE [skipped |-> TRUE]]
 
